@@ -462,9 +462,8 @@ fn table_ref(f: &FromSpec) -> Option<TableRef> {
     }
 }
 
-pub fn build_with(w: &WithSpec, d: Dialect) -> WithClause {
-    let mut wc = WithClause::new();
-    wc.recursive(w.recursive);
+fn build_ctes(w: &WithSpec, d: Dialect) -> Vec<CommonTableExpression> {
+    let mut out = vec![];
     for c in &w.ctes {
         let mut cte = if c.derive {
             CommonTableExpression::from_select(build_select(&c.query, d))
@@ -497,18 +496,66 @@ pub fn build_with(w: &WithSpec, d: Dialect) -> WithClause {
         if let Some(m) = c.materialized {
             cte.materialized(m);
         }
+        out.push(cte);
+    }
+    out
+}
+
+fn build_search(w: &WithSpec) -> Option<Search> {
+    let (breadth, col) = w.search?;
+    let order = if breadth { SearchOrder::BREADTH } else { SearchOrder::DEPTH };
+    let item = SelectExpr { expr: Expr::col(al(QCOLS[col as usize % 5])).into(), alias: Some(al("ordcol").into_iden()), window: None };
+    // the constructor or the setters
+    Some(if (col as usize + w.ctes.len()) % 2 == 0 { Search::new_from_order_and_expr(order, item) } else { Search::new().order(order).expr(item).to_owned() })
+}
+
+fn build_cycle(w: &WithSpec) -> Option<Cycle> {
+    let col = w.cycle?;
+    let e = Expr::col(al(QCOLS[col as usize % 5]));
+    Some(if (col as usize + w.ctes.len()) % 2 == 0 {
+        Cycle::new_from_expr_set_using(e, al("is_cycle"), al("path"))
+    } else {
+        Cycle::new().using(al("path")).set(al("is_cycle")).expr(e).to_owned()
+    })
+}
+
+pub fn build_with(w: &WithSpec, d: Dialect) -> WithClause {
+    let mut wc = WithClause::new();
+    wc.recursive(w.recursive);
+    for cte in build_ctes(w, d) {
         wc.cte(cte);
     }
-    if let Some((breadth, col)) = w.search {
-        wc.search(Search::new_from_order_and_expr(
-            if breadth { SearchOrder::BREADTH } else { SearchOrder::DEPTH },
-            SelectExpr { expr: Expr::col(al(QCOLS[col as usize % 5])).into(), alias: Some(al("ordcol").into_iden()), window: None },
-        ));
+    if let Some(s) = build_search(w) {
+        wc.search(s);
     }
-    if let Some(col) = w.cycle {
-        wc.cycle(Cycle::new_from_expr_set_using(Expr::col(al(QCOLS[col as usize % 5])), al("is_cycle"), al("path")));
+    if let Some(c) = build_cycle(w) {
+        wc.cycle(c);
     }
     wc
+}
+
+/// A WITH query around `q` through one of the three public routes: `WithClause::query`, or a `WithQuery` assembled from its own setters
+/// (either handing it the whole clause or its parts); `stmt.with(clause)` is the fourth, used by the caller.
+fn with_query<Q: QueryStatementBuilder + 'static>(q: Q, w: &WithSpec, d: Dialect, k: u64) -> WithQuery {
+    match k % 3 {
+        0 => build_with(w, d).query(q),
+        1 => WithQuery::new().with_clause(build_with(w, d)).query(q).to_owned(),
+        _ => {
+            let mut wq = WithQuery::new();
+            wq.query(q);
+            for cte in build_ctes(w, d) {
+                wq.cte(cte);
+            }
+            if let Some(c) = build_cycle(w) {
+                wq.cycle(c);
+            }
+            if let Some(s) = build_search(w) {
+                wq.search(s);
+            }
+            wq.recursive(w.recursive);
+            wq
+        }
+    }
 }
 
 pub fn build_select(s: &SelectSpec, d: Dialect) -> SelectStatement {
@@ -987,22 +1034,26 @@ impl Stmt {
             Stmt::Select(s) if s.with.is_some() && s.api >= 128 => {
                 let mut bare = s.clone();
                 let w = bare.with.take().unwrap();
-                return Built::With(build_select(&bare, d).with(build_with(&w, d)));
+                let k = crate::runner::fingerprint(&w);
+                return Built::With(if k % 4 == 0 { build_select(&bare, d).with(build_with(&w, d)) } else { with_query(build_select(&bare, d), &w, d, k / 4) });
             }
             Stmt::Insert(s) if s.with.is_some() && s.api >= 128 => {
                 let mut bare = s.clone();
                 let w = bare.with.take().unwrap();
-                return Built::With(build_insert(&bare, d).with(build_with(&w, d)));
+                let k = crate::runner::fingerprint(&w);
+                return Built::With(if k % 4 == 0 { build_insert(&bare, d).with(build_with(&w, d)) } else { with_query(build_insert(&bare, d), &w, d, k / 4) });
             }
             Stmt::Update(s) if s.with.is_some() && s.api >= 128 => {
                 let mut bare = s.clone();
                 let w = bare.with.take().unwrap();
-                return Built::With(build_update(&bare, d).with(build_with(&w, d)));
+                let k = crate::runner::fingerprint(&w);
+                return Built::With(if k % 4 == 0 { build_update(&bare, d).with(build_with(&w, d)) } else { with_query(build_update(&bare, d), &w, d, k / 4) });
             }
             Stmt::Delete(s) if s.with.is_some() && s.api >= 128 => {
                 let mut bare = s.clone();
                 let w = bare.with.take().unwrap();
-                return Built::With(build_delete(&bare, d).with(build_with(&w, d)));
+                let k = crate::runner::fingerprint(&w);
+                return Built::With(if k % 4 == 0 { build_delete(&bare, d).with(build_with(&w, d)) } else { with_query(build_delete(&bare, d), &w, d, k / 4) });
             }
             _ => {}
         }
